@@ -32,7 +32,7 @@ import traceback
 import numpy as np
 
 from runtime import oracles
-from runtime.common import Recorder, jsonable, use_repo
+from runtime.common import Recorder, jsonable, use_repo, alternate_route
 
 K_POINT = "get_anomalies:point-anomaly-interval"
 TOL = 1e-8
@@ -227,6 +227,7 @@ def execute(case):
             det = MVCAPA(collective_saving=cs, point_saving=ps, collective_penalty=cpen, collective_penalty_scale=pen["cscale"],
                          point_penalty=ppen, point_penalty_scale=pen["pscale"], min_segment_length=m, max_segment_length=M,
                          ignore_point_anomalies=case["ignore"])
+            det = alternate_route(det)
             sav_c, sav_p = det._collective_saving, det._point_saving
         else:
             sav_c, sav_p = cs, ps
@@ -380,7 +381,8 @@ def run(tier="quick", seed=0, repo="/repo"):
     return rec.result(RULE, f"random ({per_n} cases per n): 3<=n<=12, 2<=p<={pmax}, 2<=m<=min(n,5), m<=M<=8; L2Saving / L2Cost(0) on "
                       "planted dense/sparse/single-column/point patterns and table savings; collective and point penalty in "
                       "{dense,sparse,intermediate,combined,user}, scales {0,.1,.3,1,2} (+50 for points); MVCAPA "
-                      "fit/predict/transform (with and without ignore_point_anomalies) and run_mvcapa",
+                      "fit/predict/transform (with and without ignore_point_anomalies; row index default / shifted / dates; in half of the cases the frame used "
+                      "after fit carries the column labels in another order) and run_mvcapa",
                       exhaustive=False, anomalies_checked=stats)
 
 
